@@ -27,6 +27,20 @@ pub trait Sc:
             Self::zero()
         }
     }
+    /// derivative-free step function of a user operation (1 where positive, 0 elsewhere): a constant
+    fn gate(self) -> Self {
+        if self.val() > 0.0 {
+            Self::c(1.0)
+        } else {
+            Self::zero()
+        }
+    }
+    /// tangent carried by the result of a derivative-free user operation: none. (The magnitude scalar gives it 1: such a
+    /// result may be turned into a gradient-holding array of its own, and the adjoints formed above it must be bounded
+    /// like those above any leaf.)
+    fn fresh_tangent() -> Self {
+        Self::zero()
+    }
     /// logistic function (overridable: the magnitude scalar bounds the terms of s * (1 - s), not their difference)
     fn sigmoid(self) -> Self {
         Self::c(1.0) / (Self::c(1.0) + (-self).exp())
@@ -107,6 +121,12 @@ impl Neg for Sh {
 impl Sc for Sh {
     fn detach(self) -> Sh {
         self
+    }
+    fn gate(self) -> Sh {
+        Sh(1.0)
+    }
+    fn fresh_tangent() -> Sh {
+        Sh(1.0)
     }
     fn c(x: f64) -> Sh {
         Sh(x.abs().max(1.0))
@@ -196,6 +216,9 @@ impl<B: Sc> Sc for Dual<B> {
     }
     fn ste_relu(self) -> Dual<B> {
         Dual { v: self.v.ste_relu(), d: self.d }
+    }
+    fn gate(self) -> Dual<B> {
+        Dual { v: self.v.gate(), d: B::fresh_tangent() }
     }
 }
 pub type D64 = Dual<f64>;
